@@ -47,6 +47,9 @@ CHECKS = {
  "C06": ("exploration", "independent SAM formatter as output monitor; format/parse/format round-trip monitor; SAM-vs-BAM differential; checkptr build",
          "Generated text-expressible records are formatted with the real MarshalSAM (decimal and hex flags), compared with a formatter written from SAMv1 1.4/1.5, parsed back and compared field by field and line by line, pushed through a BAM round trip and re-formatted, and generated SAM texts (LF/CRLF, with/without final newline and header) are read with sam.Reader.",
          "FlagString is not parsed back; NaN and lower-case bases excluded; a lone '*' quality (phred 9 on a 1-base read) is ambiguous in SAM and not generated.", "3 C06"),
+ "C07": ("exploration", "round-trip monitor (text and binary) plus structural-invariant monitor walked after every operation of generated edit histories",
+         "Headers built through the public API are serialised as text and binary, parsed into fresh headers and compared (serialisations byte for byte, every exposed tag); random 30-operation edit histories over add/remove/rename/clone/merge/UnmarshalText/NewHeader are executed and after every operation every live header is walked for id==index, unique names and, for merges, owned links with matching name and length.",
+         "URIs restricted to http/ftp/file schemes; whole-second dates; errors returned by edits are not judged.", "3 C07"),
 }
 NOT_BUILT = "check not built yet in this session; see DESIGN.md section 3 for the planned monitor"
 
